@@ -14,8 +14,9 @@ import (
 var v3Versions = []string{"0.5.0", "0.5.1", "0.5.3", "0.5.4", "0.5.6", "0.5.7", "0.5.8", "0.5.9"}
 
 // legacyBytes builds the stream of `layout` for case c.
-//   "v3-<ver>"                   three sections, harness-native writer
-//   "v0510-<ver>"                0.5.10 wire form of the trie the real builder makes for c
+//
+//	"v3-<ver>"                   three sections, harness-native writer
+//	"v0510-<ver>"                0.5.10 wire form of the trie the real builder makes for c
 func legacyBytes(c *TrieCase, layout string) ([]byte, bool) {
 	switch {
 	case strings.HasPrefix(layout, "v3-"):
